@@ -1,6 +1,8 @@
 import ApolloModel.Proofs.ExecValidation
 import ApolloModel.Proofs.ExecValidationValues
 import ApolloModel.Proofs.ExecValidationMerge
+import ApolloModel.Proofs.ExecValidationMerge2
+import ApolloModel.Proofs.ExecValidationCache
 /-
 C17 — Executable validation agrees with the specification.
 
@@ -133,12 +135,98 @@ theorem xing_equiv_pairwise_partial (n : Nat) (fs : List AField) (h : xingCanMer
     documentFieldsCanMerge n fs = true :=
   xing_sound n fs h
 
-/-- The full equivalence of the XING algorithm with the pairwise definition.  The converse direction
-    (the pairwise rule accepts ⇒ the algorithm reports no conflict) is stated, not proved; it is tied
-    on every run by c17.merge (model = implementation) and c17.mergespec (this Lean definition = the
-    Rust spec validator) on the same expanded field sets. -/
+/-- The full equivalence of the XING algorithm with the pairwise definition (proved below:
+    `xing_iff_pairwise`); tied to the code on every run by c17.merge (model = implementation) and
+    c17.mergespec (this Lean definition = the Rust spec validator) on the same expanded field sets. -/
 def xing_equiv_pairwise : Prop :=
   ∀ (n : Nat) (fs : List AField), xingCanMerge n fs = documentFieldsCanMerge n fs
+
+/-- THE CONVERSE (completeness of the algorithm), for every field set and recursion limit: if the
+    specification's pairwise FieldsInSetCanMerge / SameResponseShape accepts every selection set of
+    the document, then the XING algorithm — grouping by response key, `same_output_type_shape` of the
+    first of every name group against the rest, `same_name_and_arguments` of the first of every
+    common-parents group against the rest, recursion into the merged sub-selections of each group —
+    reports nothing.  The proof turns the spec's "each pair" (positions i < j of one selection set)
+    into all pairs of members: the pair rule is symmetric, and holds on the diagonal because the
+    sub-selection of every field is itself a selection set of the document. -/
+theorem xing_complete (n : Nat) (fs : List AField) (h : documentFieldsCanMerge n fs = true) :
+    xingCanMerge n fs = true :=
+  ExecVal.xing_complete n fs h
+
+/-- XING ⇔ PAIRWISE: the algorithm accepts exactly the documents the specification's pairwise rule
+    accepts, for every expanded field tree (every document over every schema, through the
+    abstraction c17.merge ties to the code) and every recursion limit. -/
+theorem xing_iff_pairwise : xing_equiv_pairwise :=
+  fun n fs => xing_eq_pairwise n fs
+
+/-- The verdict of the pairwise rule depends only on WHICH fields an expanded set contains, not on
+    their order or multiplicity — so it does not matter in which order `expand_selections` visits
+    inline fragments and fragment spreads (a breadth-first queue), nor that `seen_fragments` makes it
+    visit every fragment once. -/
+theorem fields_can_merge_ignores_order_and_duplicates (n : Nat) (S S' : List AField)
+    (h : ∀ x, x ∈ S ↔ x ∈ S') : documentFieldsCanMerge n S = documentFieldsCanMerge n S' :=
+  doc_congr n S S' h
+
+/-- THE CACHE IS TRANSPARENT.  `xingCachedDoc` (Model/ExecValidationCache.lean) is the algorithm as
+    the code runs it: one validator for all operations, whose `cache` gives every merged field set
+    ONE `MergedFieldSet` with two `OnceBool` guards, so that each of the two walks returns at once
+    when it meets a set it has already walked (in this or in an earlier operation).  For EVERY
+    identity `same` of merged sets that only identifies sets with equal contents, and every document
+    whose operations nest less deeply than the recursion limit: no conflict is reported exactly when
+    the pairwise rule accepts every operation.  (A hit returns what the recomputation would: if
+    nothing was reported so far, every guarded set is accepted by the unguarded walk; a set being
+    walked is never met again below itself, because merged sub-selections are strictly shallower.) -/
+theorem xing_cache_transparent (same : List AField → List AField → Bool)
+    (hsame : ∀ a b, same a b = true → a = b) (limit : Nat) (ops : List (List AField))
+    (hd : ∀ fs ∈ ops, depthList fs < limit) :
+    xingCachedDoc same limit ops = ops.all (documentFieldsCanMerge limit) := by
+  rw [xingCachedDoc_eq same hsame limit ops hd]
+  congr 1
+  funext fs
+  exact xing_eq_pairwise limit fs
+
+/-- structural equality of field trees is such an identity -/
+theorem beqList_is_identity (a b : List AField) (h : AField.beqList a b = true) : a = b :=
+  AField.beqList_sound a b h
+
+section Witnesses
+/-- `f { g { x: a  x: b } }` with `a: Int`, `b: String` — and the operation `g { x: a  x: b }` -/
+def wLeafA : AField := .mk "x" "O" true "a " "Int" []
+def wLeafB : AField := .mk "x" "O" true "b " "String" []
+def wInner : List AField := [.mk "g" "Q" true "g " "composite" [wLeafA, wLeafB]]
+def wOuter : List AField := [.mk "f" "Q" true "f " "composite" wInner]
+
+/-- guard 1 (both hypotheses are used): the depth hypothesis cannot be dropped.  With limit 2 the
+    first operation (depth 3) sets the guard of `g {…}` but is cut off before it compares the two
+    `x`; the second operation IS that set, hits the guard, and nothing is ever reported — while the
+    unguarded algorithm at the same limit reports the second operation.  (The code then reports
+    RecursionLimitError, since `recursion_limit.high > limit`.)  With the real limit, 128, the
+    conflict is found. -/
+theorem cache_needs_depth_hypothesis :
+    xingCachedDoc AField.beqList 2 [wOuter, wInner] = true ∧
+      [wOuter, wInner].all (xingCanMerge 2) = false ∧
+      xingCachedDoc AField.beqList 128 [wOuter, wInner] = false := by decide +kernel
+
+/-- guard 2: an identity that identifies different sets is not transparent -/
+theorem cache_needs_exact_identity :
+    xingCachedDoc (fun _ _ => true) 128 [[wLeafA], [wLeafA, wLeafB]] = true ∧
+      xingCachedDoc AField.beqList 128 [[wLeafA], [wLeafA, wLeafB]] = false := by decide +kernel
+
+/-- the guard does fire: `{ f { y } h { y } }` — the merged sub-selection `{ y }` of the two name
+    groups is one set, walked once (2 guarded sets), and three times without a cache -/
+theorem cache_hit_witness :
+    (cachedCheck AField.beqList groupByOutputName shapeLeaf 128
+      [.mk "f" "Q" true "f " "composite" [.mk "y" "O" true "a " "Int" []],
+       .mk "h" "Q" true "h " "composite" [.mk "y" "O" true "a " "Int" []]] (true, [])).2.length = 2 ∧
+    (cachedCheck (fun _ _ => false) groupByOutputName shapeLeaf 128
+      [.mk "f" "Q" true "f " "composite" [.mk "y" "O" true "a " "Int" []],
+       .mk "h" "Q" true "h " "composite" [.mk "y" "O" true "a " "Int" []]] (true, [])).2.length = 3 := by decide +kernel
+
+-- completeness is not vacuous: a set the pairwise rule accepts although two fields share a key
+-- with different names (exclusive object parents), and one it rejects (an abstract parent)
+example : documentFieldsCanMerge 128 [.mk "x" "O" true "a " "Int" [], .mk "x" "P" true "b " "Int" []] = true := by decide +kernel
+example : documentFieldsCanMerge 128 [.mk "x" "O" true "a " "Int" [], .mk "x" "I" false "b " "Int" []] = false := by decide +kernel
+end Witnesses
 
 example : xingCanMerge 128 [.mk "x" "O" true "a " "Int" [], .mk "x" "P" true "b " "Int" []] = true := by decide
 example : xingCanMerge 128 [.mk "x" "O" true "a " "Int" [], .mk "x" "I" false "b " "Int" []] = false := by decide
